@@ -151,6 +151,16 @@ theorem C09_malformed_property (L : Nat) (pre : List PropOcc) (bad suf : Bytes) 
    fun rc hl hb => bad_disconnect rc L pre bad suf hl hL hreach hb,
    fun rc hl hb => bad_auth rc L pre bad suf hl hL hreach hb⟩
 
+/-- … and in the will properties of a CONNECT (will flag set), after any legal CONNECT properties and
+client identifier -/
+theorem C09_malformed_will_property (fl : UInt8) (hfl : has fl Connect.fWillFlag = true) (ka : UInt16) (ps : List PropOcc)
+    (hps : Spec.propsLegal 1 ps = true) (hsl : (ps.flatMap encOcc).length < 268435456) (cid : Bytes) (hcid : cid.length < 65536)
+    (L : Nat) (pre : List PropOcc) (bad suf : Bytes) (hl : Spec.propsLegal Spec.willK pre = true)
+    (hL : L < 268435456) (hreach : (pre.flatMap encOcc).length < L) (hbad : BadProp Connect.willTable bad) :
+    ∃ e, frameOutcome 0x10 (encBin Connect.mqtt5 ++ (5 :: fl :: (encU16 ka ++ (Spec.propSection ps ++ (encBin cid
+      ++ badSection L pre bad suf))))) = .err e :=
+  bad_connect_will fl hfl ka ps hps hsl cid hcid L pre bad suf hl hL hreach hbad
+
 /-- once the error status is set, every later step of every decoder keeps it -/
 theorem C09_sticky (b : Buf) (h : b.Failed) :
     (∀ {α} (dec : Dec α) (old : α), (b.get dec old).1.Failed)
